@@ -86,7 +86,9 @@ NONDOT = [o for o in BINOPS if not o.startswith("Dot")]
 
 
 BINOP_GROUPS = {
-    "arith": ["Add", "Subtract", "Multiply", "Divide", "Modulo", "Power"],
+    "addsub": ["Add", "Subtract"],
+    "muldiv": ["Multiply", "Divide", "Modulo"],
+    "power": ["Power"],
     "compare": ["Equal", "NotEqual", "Less", "LessEq", "Greater", "GreaterEq"],
     "logic": ["And", "NaturalAnd", "Or", "NaturalOr", "Coalesce", "Where"],
     "apply": ["Via", "Into"],
@@ -111,7 +113,7 @@ def binop_scalar_harnesses():
             _ => binop_scalar_contract(BinaryOp::{ops[-1]}),
     }}
 }}
-binop_scalar_harness!(u_binop_scalar_{g}, binop_scalar_group_{g});
+binop_scalar_harness!(u_binop_scalar_{g}, binop_scalar_group_{g}, cadical);
 """)
     return "\n".join(out)
 
